@@ -49,6 +49,7 @@ type ABlock struct {
 	Absent   []int   `json:"absent,omitempty"`
 	Abandon  int     `json:"abandoned_rounds,omitempty"` // PrepareProposal rounds prepared and dropped before the real one
 	FailEth  bool    `json:"failing_eth_block,omitempty"`
+	Evidence []int   `json:"evidence_against,omitempty"` // validator key indexes
 }
 
 func (b ABlock) String() string {
@@ -73,6 +74,12 @@ func (b ABlock) String() string {
 	}
 	if b.FailEth {
 		s += "[failing-eth-msg]"
+	}
+	if len(b.Evidence) > 0 {
+		s += fmt.Sprintf("[evidence %v]", b.Evidence)
+	}
+	if len(b.Absent) > 0 {
+		s += fmt.Sprintf("[absent %v]", b.Absent)
 	}
 	if b.Dt > 1 {
 		s += fmt.Sprintf("[dt=%d]", b.Dt)
@@ -484,6 +491,17 @@ func (w *World) BuildMsg(e Event) (msg sdk.Msg, commit func()) {
 			return &bitcointypes.MsgNewPubkey{Proposer: rel.Proposer, Pubkey: k.Public(), Vote: &relayertypes.Votes{Sequence: seq, Epoch: rel.Epoch, Voters: old.Vote.Voters, Signature: old.Vote.Signature}}, func() {}
 		}
 		return m, func() {}
+	case "tx:newvoter":
+		m := sim.NewMember("joiner")
+		ctx := w.N.Ctx()
+		rec, err := w.N.App.RelayerKeeper.Voters.Get(ctx, m.AddrStr())
+		if err != nil {
+			return nil, nil
+		}
+		req := relayertypes.NewOnBoardingVoterRequest(rec.Height, m.Addr(), sim.SHA256(m.BLS.PK))
+		sigMsg := relayertypes.VoteSignDoc(req.MethodName(), w.N.Cfg.ChainID, rel.Proposer, 0, rel.Epoch, req.SignDoc())
+		return &relayertypes.MsgNewVoterRequest{Proposer: rel.Proposer, VoterBlsKey: m.BLS.PK, VoterTxKey: m.Pub().Key,
+			VoterTxKeyProof: m.SignECDSA64(sigMsg), VoterBlsKeyProof: m.BLS.Sign(sigMsg)}, func() { w.Members = append(w.Members[:len(w.Members):len(w.Members)], m) }
 	case "tx:accept":
 		return &relayertypes.MsgAcceptProposerRequest{Proposer: rel.Proposer, Epoch: rel.Epoch}, func() {}
 	}
@@ -549,6 +567,28 @@ func (w *World) ApplyReq(e Event) (commit func()) {
 		k := w.ValKeys[len(w.N.Cfg.Vals)]
 		el.NextLocking.Creates = append(el.NextLocking.Creates, &goattypes.CreateRequest{Validator: k.EthAddr(), Pubkey: k.Uncompressed()})
 		el.NextLocking.Locks = append(el.NextLocking.Locks, &goattypes.LockRequest{Validator: k.EthAddr(), Token: common.Address{}, Amount: new(big.Int).Mul(big.NewInt(int64(e.N)), big.NewInt(1e18))})
+		return func() {}
+	case "req:unlock-big":
+		el.NextLocking.Unlocks = append(el.NextLocking.Unlocks, &goattypes.UnlockRequest{Id: w.Bot.NextReq + w.reqOff, Validator: w.ValKeys[e.N].EthAddr(),
+			Recipient: common.BytesToAddress([]byte{0xee}), Token: common.Address{}, Amount: new(big.Int).Mul(big.NewInt(4), big.NewInt(1e18))})
+		w.reqOff++
+		return func() { w.Bot.NextReq++ }
+	case "req:params":
+		switch e.Var {
+		case "rate0-cap5":
+			el.NextBridge.DepositTax = append(el.NextBridge.DepositTax, &goattypes.DepositTaxRequest{Rate: 0, Max: 5})
+		case "cap-huge":
+			el.NextBridge.DepositTax = append(el.NextBridge.DepositTax, &goattypes.DepositTaxRequest{Rate: 20, Max: 1 << 40})
+		case "rate-20-cap-1000":
+			el.NextBridge.DepositTax = append(el.NextBridge.DepositTax, &goattypes.DepositTaxRequest{Rate: 20, Max: 1000})
+		case "min-1001":
+			el.NextBridge.MinDeposit = append(el.NextBridge.MinDeposit, &goattypes.MinDepositRequest{Satoshi: 1001})
+		case "conf-6":
+			el.NextBridge.Confirmation = append(el.NextBridge.Confirmation, &goattypes.ConfirmationNumberRequest{Number: 6})
+		}
+		return func() {}
+	case "req:weight":
+		el.NextLocking.UpdateWeights = append(el.NextLocking.UpdateWeights, &goattypes.UpdateTokenWeightRequest{Token: common.Address{}, Weight: uint64(e.N)})
 		return func() {}
 	case "req:unknown-validator-lock":
 		el.NextLocking.Locks = append(el.NextLocking.Locks, &goattypes.LockRequest{Validator: common.BytesToAddress([]byte{0xde, 0xad}), Token: common.Address{}, Amount: big.NewInt(5)})
@@ -634,6 +674,10 @@ func (w *World) Run(b ABlock) *Result {
 		for _, i := range b.Absent {
 			blk.Absent[string(w.ValKeys[i].Addr())] = true
 		}
+	}
+	for _, i := range b.Evidence {
+		blk.Misbehavior = append(blk.Misbehavior, abci.Misbehavior{Type: abci.MisbehaviorType_DUPLICATE_VOTE,
+			Validator: abci.Validator{Address: w.ValKeys[i].Addr(), Power: 1}, Height: w.N.Height, Time: w.N.Time, TotalVotingPower: 10})
 	}
 	if b.Mode == "built" {
 		ethTx, _, err := w.N.BuildEthBlockTx(sim.EthBlockOpts{})
